@@ -22,7 +22,10 @@ EXPLANATION = (
     "every yield (C11.PAIR, C11.NOYIELD); no release in a state other than 'held' (C11.FOREIGN); every write "
     "to _cache/_cache_complete/_cache_gen in iteration/query code happens in state 'held' (C11.SHARED); the "
     "invalidation routine that is exempt from C11.SHARED is reachable only from construction and rruleset "
-    "mutators (C11.EXEMPT, call-graph check); every return of the generators publishes _len first (C11.LEN). "
+    "mutators (C11.EXEMPT, call-graph check); every return of the generators publishes _len first (C11.LEN); every "
+    "element drawn from the shared generator goes into the shared list in the same statement (C11.CONSERVE, def-use of "
+    "the generator alias); a failure of the shared generator other than StopIteration is handled by replacing the "
+    "generator and re-raising, never left to read as exhaustion (C11.GENFAIL, handler coverage of the draw sites). "
     "The schedule quantifier of C11 is replaced by a path quantifier over the CFG: a lock left held on ANY "
     "path is a deadlock for SOME schedule of two iterators.")
 TECHNIQUE = "lock typestate dataflow over a statement-level CFG + who-may-write and call-graph checks (ast only)"
